@@ -3,10 +3,12 @@
 From Coq Require Import Lia ZArith.
 From PG Require Import Lib.Str Lib.Bytes Lib.Utf8.
 Local Open Scope N_scope.
-Ltac Zify.zify_post_hook ::= Z.to_euclidean_division_equations.
+(* lia with division/modulo by constants turned into equations; kept local so that
+   importing this file does not change the behaviour of lia elsewhere *)
+Local Ltac dlia := zify; Z.to_euclidean_division_equations; lia.
 
 (* boolean hypotheses -> arithmetic *)
-Ltac b2p :=
+Local Ltac b2p :=
   repeat match goal with
   | H : _ && _ = true |- _ => apply andb_true_iff in H; destruct H
   | H : _ && _ = false |- _ => apply andb_false_iff in H; destruct H
@@ -21,19 +23,19 @@ Ltac b2p :=
   end.
 
 (* decide the conditionals of the goal by arithmetic *)
-Ltac ifs :=
+Local Ltac ifs :=
   repeat match goal with
   | |- context [if ?c then _ else _] =>
-      let E := fresh "E" in destruct c eqn:E; b2p; try lia
+      let E := fresh "E" in destruct c eqn:E; b2p; try dlia
   end.
 
-Ltac list_eq :=
+Local Ltac list_eq :=
   repeat match goal with
   | |- Some _ = Some _ => f_equal
   | |- _ :: _ = _ :: _ => f_equal
   end.
 
-Ltac hyp_ifs :=
+Local Ltac hyp_ifs :=
   repeat match goal with
   | H : context [if ?c then _ else _] |- _ =>
       let E := fresh "E" in destruct c eqn:E
@@ -45,26 +47,26 @@ Proof. intros H. unfold enc_cp. now rewrite H. Qed.
 
 Lemma enc_cp_esc x : 128 <= x < 256 -> enc_cp (esc x) = Some [x].
 Proof.
-  intros H. unfold enc_cp, esc. ifs. list_eq; lia.
+  intros H. unfold enc_cp, esc. ifs. list_eq; dlia.
 Qed.
 
 Lemma enc_cp_cp2 x y : dec2_ok x y = true -> enc_cp (cp2 x y) = Some [x; y].
 Proof.
   unfold dec2_ok, is_cont. intros H. b2p.
-  unfold enc_cp, cp2. ifs. list_eq; lia.
+  unfold enc_cp, cp2. ifs. list_eq; dlia.
 Qed.
 
 Lemma enc_cp_cp3 x y z : dec3_ok x y z = true -> enc_cp (cp3 x y z) = Some [x; y; z].
 Proof.
   unfold dec3_ok, is_cont. intros H. b2p. hyp_ifs.
-  all: unfold enc_cp, cp3; ifs; list_eq; lia.
+  all: unfold enc_cp, cp3; ifs; list_eq; dlia.
 Qed.
 
 Lemma enc_cp_cp4 x y z w :
   dec4_ok x y z w = true -> enc_cp (cp4 x y z w) = Some [x; y; z; w].
 Proof.
   unfold dec4_ok, is_cont. intros H. b2p. hyp_ifs.
-  all: unfold enc_cp, cp4; ifs; list_eq; lia.
+  all: unfold enc_cp, cp4; ifs; list_eq; dlia.
 Qed.
 
 (* ---------- bytes ---------- *)
@@ -127,7 +129,7 @@ Proof.
 Qed.
 
 Lemma dstep_length b c r : dstep b c r -> (length r < length b)%nat.
-Proof. intros H. destruct H; simpl; lia. Qed.
+Proof. intros H. destruct H; simpl; dlia. Qed.
 
 (* what one step produced is encoded back to the bytes it consumed *)
 Lemma dstep_encode b c r :
@@ -144,7 +146,7 @@ Proof.
   - exists [x; y; z; w]. do 4 (apply is_bytes_cons in B as [_ B]).
     split; [now apply enc_cp_cp4 | now split].
   - exists [x]. apply is_bytes_cons in B as [X B].
-    split; [apply enc_cp_esc; lia | now split].
+    split; [apply enc_cp_esc; dlia | now split].
 Qed.
 
 (* induction along the steps of decode_se *)
@@ -156,11 +158,11 @@ Proof.
   intros P0 PS b.
   assert (G : forall n b, (length b <= n)%nat -> P b).
   { induction n as [|n IH]; intros b0 L.
-    - destruct b0; [exact P0 | simpl in L; lia].
+    - destruct b0; [exact P0 | simpl in L; dlia].
     - destruct b0 as [|x r0]; [exact P0|].
       destruct (decode_se_step (x :: r0)) as (c & r & S & E); [discriminate|].
-      apply (PS _ c r S E). apply IH. apply dstep_length in S. lia. }
-  apply (G (length b)). lia.
+      apply (PS _ c r S E). apply IH. apply dstep_length in S. dlia. }
+  apply (G (length b)). dlia.
 Qed.
 
 (* ---------- the round trip ---------- *)
@@ -192,8 +194,8 @@ Qed.
 
 Theorem decode_se_length_le b : (length (decode_se b) <= length b)%nat.
 Proof.
-  induction b as [|b c r S E IH] using decode_se_ind; [simpl; lia|].
-  rewrite E. simpl. apply dstep_length in S. lia.
+  induction b as [|b c r S E IH] using decode_se_ind; [simpl; dlia|].
+  rewrite E. simpl. apply dstep_length in S. dlia.
 Qed.
 
 (* the decoder only produces code points; lone surrogates only in U+DC80..U+DCFF *)
@@ -204,21 +206,21 @@ Lemma dstep_cp b c r : is_bytes b = true -> dstep b c r -> is_scalar_or_esc c = 
 Proof.
   intros B H. unfold is_scalar_or_esc.
   destruct H as [x r L|x y r D|x y z r D|x y z w r D|x r L].
-  - assert (c0 : x <? 55296 = true) by (apply N.ltb_lt; lia). now rewrite c0.
+  - assert (c0 : x <? 55296 = true) by (apply N.ltb_lt; dlia). now rewrite c0.
   - unfold dec2_ok, is_cont in D. b2p. unfold cp2.
-    assert (c0 : (x - 192) * 64 + (y - 128) <? 55296 = true) by (apply N.ltb_lt; lia).
+    assert (c0 : (x - 192) * 64 + (y - 128) <? 55296 = true) by (apply N.ltb_lt; dlia).
     now rewrite c0.
   - unfold dec3_ok, is_cont in D. b2p. hyp_ifs. all: unfold cp3.
     all: apply orb_true_iff;
       destruct (N.ltb_spec ((x - 224) * 4096 + (y - 128) * 64 + (z - 128)) 55296) as [c0|c0];
       [left; now rewrite orb_true_l | right; apply andb_true_iff; split;
-        [apply N.leb_le | apply N.ltb_lt]; lia].
+        [apply N.leb_le | apply N.ltb_lt]; dlia].
   - unfold dec4_ok, is_cont in D. b2p. hyp_ifs. all: unfold cp4.
     all: apply orb_true_iff; right; apply andb_true_iff; split;
-        [apply N.leb_le | apply N.ltb_lt]; lia.
+        [apply N.leb_le | apply N.ltb_lt]; dlia.
   - apply is_bytes_cons in B as [X _]. unfold esc.
     apply orb_true_iff; left; apply orb_true_iff; right.
-    apply andb_true_iff; split; apply N.leb_le; lia.
+    apply andb_true_iff; split; apply N.leb_le; dlia.
 Qed.
 
 Theorem decode_se_codepoints b :
